@@ -13,6 +13,7 @@ pub enum Mutn {
     Plus1,
     Zero,
     Flip(u32),
+    HighBit(u32),
     NextValue,
     PMinus1,
     Delete,
@@ -23,6 +24,7 @@ impl Mutn {
             Mutn::Plus1 => "plus1".into(),
             Mutn::Zero => "zero".into(),
             Mutn::Flip(k) => format!("flip{}", k),
+            Mutn::HighBit(k) => format!("highbit{}", k),
             Mutn::NextValue => "next-value".into(),
             Mutn::PMinus1 => "p-1".into(),
             Mutn::Delete => "delete".into(),
@@ -33,6 +35,7 @@ impl Mutn {
             Mutn::Plus1 => "plus1",
             Mutn::Zero => "zero",
             Mutn::Flip(_) => "flip",
+            Mutn::HighBit(_) => "highbit",
             Mutn::NextValue => "next-value",
             Mutn::PMinus1 => "p-1",
             Mutn::Delete => "delete",
@@ -46,6 +49,7 @@ impl Mutn {
             "p-1" => Mutn::PMinus1,
             "delete" => Mutn::Delete,
             f if f.starts_with("flip") => Mutn::Flip(f[4..].parse().ok()?),
+            f if f.starts_with("highbit") => Mutn::HighBit(f[7..].parse().ok()?),
             _ => return None,
         })
     }
@@ -87,6 +91,13 @@ pub fn apply(base: &Value, path: &jw::Path, m: &Mutn) -> Option<Value> {
                     Felt::from_bytes_be(&b)
                 }
                 Mutn::PMinus1 => p_minus(1),
+                Mutn::HighBit(k) => {
+                    let n = crate::kit::f2b(&f) + crate::kit::pow2(*k);
+                    if n >= crate::kit::prime() {
+                        return None;
+                    }
+                    crate::kit::b2f(&n)
+                }
                 Mutn::NextValue => {
                     let (last, parent) = path.split_last()?;
                     let i = match last {
@@ -126,6 +137,7 @@ pub fn apply(base: &Value, path: &jw::Path, m: &Mutn) -> Option<Value> {
                 }
                 Mutn::Flip(k) => u ^ (1u64 << (k % if is_u8 { 8 } else { 64 })),
                 Mutn::PMinus1 => max,
+                Mutn::HighBit(_) => return None,
                 Mutn::NextValue => return None,
                 Mutn::Delete => unreachable!(),
             };
@@ -211,7 +223,12 @@ pub fn run(ctx: &Ctx) -> Report {
     rep.trust("serde_json round trip of StarkProof (checked: every base re-typed from JSON is accepted)");
     rep.assume("collision resistance of the commitment hashes; a changed nonce still satisfying the PoW would change the queries");
     let quick = ctx.quick();
-    let menu: Vec<Mutn> = if quick { vec![Mutn::Plus1, Mutn::Delete] } else { vec![Mutn::Plus1, Mutn::Zero, Mutn::Flip(0), Mutn::NextValue, Mutn::PMinus1, Mutn::Delete] };
+    // HighBit(k): v + 2^k for k in {160, 248, 250} - values that differ only above a masked digest's width
+    let menu: Vec<Mutn> = if quick {
+        vec![Mutn::Plus1, Mutn::HighBit(248), Mutn::Delete]
+    } else {
+        vec![Mutn::Plus1, Mutn::Zero, Mutn::Flip(0), Mutn::HighBit(160), Mutn::HighBit(248), Mutn::HighBit(250), Mutn::NextValue, Mutn::PMinus1, Mutn::Delete]
+    };
     let bs = bases(ctx, !quick);
     let mut names = Vec::new();
     for b in &bs {
